@@ -146,8 +146,9 @@ pub fn run(world: &World) -> Verdict {
     let mut fut = Box::pin(server.run());
     let mut cx = Context::from_waker(Waker::noop());
     let mut poll_server = |world: &World| -> Result<(), (String, String)> {
+        // (how many polls the server needs is not part of the history: with a transport that
+        // waits for the reactor thread it depends on the wall clock; the order of service does not)
         world.borrow_mut().tick_at("server poll");
-        world.borrow_mut().ev("b.poll_server", 0, 0);
         match fut.as_mut().poll(&mut cx) {
             Poll::Pending => Ok(()),
             Poll::Ready(r) => Err(("C18/server-exited".into(), format!("Server::run returned {r:?}"))),
@@ -171,8 +172,13 @@ pub fn run(world: &World) -> Verdict {
     let total: usize = flooders.iter().map(|f| f.1).sum::<usize>() + quiets.len();
     let mut polls = 0;
     while log.borrow().len() < total && verdict.borrow().is_none() && polls < 2_000 {
+        let before = log.borrow().len();
         poll_server(world)?;
         polls += 1;
+        if log.borrow().len() == before {
+            // no progress: give a reactor thread (if the transport relies on one) a moment
+            std::thread::sleep(std::time::Duration::from_micros(200));
+        }
         // quiet clients that were to write after the very last flooder call
         if log.borrow().len() + quiets.len() >= total {
             let mut qs = quiet_state.borrow_mut();
